@@ -96,11 +96,24 @@ def oracle(prog, idx):
 # ------------------------------------------------------------------ shape/dtype invariant across dtypes, 0-d and nnet layers
 
 
+class MixedDT:
+    """mixed precision: successive operands of a case get alternating float64/float32 dtypes"""
+
+    def __init__(self, first):
+        self.k = first
+
+    def next(self):
+        self.k += 1
+        return [np.float64, np.float32][self.k % 2]
+
+
 def layer_cases():
     from mygrad.nnet import activations as A, losses as Lo
     from mygrad.nnet.layers import batchnorm, conv_nd, gru, max_pool
 
     def T(rng, *s, dt=np.float64, lo=-1.0, hi=1.0):
+        if isinstance(dt, MixedDT):
+            dt = dt.next()
         return mg.tensor(rng.uniform(lo, hi, size=s).astype(dt))
 
     cs = []
@@ -202,6 +215,18 @@ def layer_cases():
         x = T(rng, 3, 4, dt=dt)
         return [x], Lo.negative_log_likelihood(A.logsoftmax(x), np.array([0, 1, 3]))
 
+    @case("0d-lowprec")
+    def _(rng, dt):
+        # a 0-d float64 tensor whose incoming gradient has a lower precision (dtype= on the op; written into a
+        # float32 tensor); independent of `dt`
+        x = mg.tensor(np.float64(rng.uniform(0.5, 1.5)))
+        v = T(rng, 3, dt=np.float64)
+        w = T(rng, 3, dt=np.float32)
+        y = mg.multiply(x, w, dtype=np.float32) + mg.multiply(v, w, dtype=np.float32)
+        b = +T(rng, 3, dt=np.float32)
+        b[1] = x
+        return [x, v, w], y + b
+
     @case("gru")
     def _(rng, dt):
         T_, N, C, D = 3, 2, 3, 2
@@ -219,13 +244,14 @@ def layer_case(args):
     seed, ci, dti, seedkind = args
     cs = layer_cases()
     name, build = cs[ci % len(cs)]
-    dt = [np.float64, np.float32, np.float16][dti % 3]
+    dt = [np.float64, np.float32, np.float16, MixedDT(0), MixedDT(1)][dti % 5]
+    dtn = np.dtype(dt).name if not isinstance(dt, MixedDT) else f"mixed{dt.k}"
     rng = np.random.default_rng([seed, ci, dti])
     fails = []
     try:
         ins, out = build(rng, dt)
     except Exception as e:
-        return {"name": name, "dtype": np.dtype(dt).name, "fails": [], "skipped": f"{type(e).__name__}", "args": args}
+        return {"name": name, "dtype": dtn, "fails": [], "skipped": f"{type(e).__name__}", "args": args}
     try:
         if seedkind == 0:
             out.backward()
@@ -234,7 +260,7 @@ def layer_case(args):
         else:
             out.backward(np.ones(out.shape, dtype=np.float64))
     except Exception as e:
-        return {"name": name, "dtype": np.dtype(dt).name, "fails": [f"backward raised {type(e).__name__}: {str(e)[:80]}"], "args": args}
+        return {"name": name, "dtype": dtn, "fails": [f"backward raised {type(e).__name__}: {str(e)[:80]}"], "args": args}
     for j, t in enumerate(ins + [out]):
         g = t.grad
         if g is None:
@@ -245,7 +271,7 @@ def layer_case(args):
             fails.append(f"grad shape {g.shape} != tensor shape {t.shape} (operand {j})")
         elif g.dtype != t.dtype:
             fails.append(f"grad dtype {g.dtype} != tensor dtype {t.dtype} (operand {j})")
-    return {"name": name, "dtype": np.dtype(dt).name, "fails": fails, "args": args}
+    return {"name": name, "dtype": dtn, "fails": fails, "args": args}
 
 
 def nontrivial(prog):
@@ -257,14 +283,15 @@ def run(ctx: Ctx) -> Outcome:
     out, results = engcheck.run_programs(ctx, n, dict(GEN, n_stmts=ctx.n(8, 14)), "oracle", nontrivial)
     out.rule = ("random programs; for a random non-constant terminal tensor: backward() vs sum().backward(), backward(g) vs "
                 "(L*g).sum().backward() for broadcastable g, a non-broadcastable g must be rejected with no gradient written, "
-                "and every stored grad is an ndarray of its tensor's shape and dtype; plus 19 layer/op cases x float64/32/16 x "
-                "three seed kinds for the shape/dtype invariant")
+                "and every stored grad is an ndarray of its tensor's shape and dtype; plus 20 layer/op cases x float64/32/16/mixed precision x "
+                "three seed kinds for the shape/dtype invariant (incl. a 0-d float64 tensor receiving float32 gradients)")
     engcheck.report(out, results, "C14", oracle, shrinkable=False)
     cs = layer_cases()
-    items = [(ctx.seed + r, ci, dti, sk) for ci in range(len(cs)) for dti in range(3) for sk in range(3) for r in range(ctx.n(1, 4))]
+    items = [(ctx.seed + r, ci, dti, sk) for ci in range(len(cs)) for dti in range(5) for sk in range(3) for r in range(ctx.n(1, 4))]
     # the GRU kernels are numba-compiled per dtype (~30 s each): float64 only in the quick tier, scheduled first
     gru_i = [i for i, (nm, _) in enumerate(cs) if nm == "gru"][0]
-    gru = [it for it in items if it[1] == gru_i and (it[2] == 0 or (ctx.thorough and it[2] == 1)) and it[0] == ctx.seed]
+    # (mixed precision runs in the widest dtype, float64: no further compilation)
+    gru = [it for it in items if it[1] == gru_i and (it[2] in (0, 3, 4) or (ctx.thorough and it[2] == 1)) and it[0] == ctx.seed]
     items = gru + [it for it in items if it[1] != gru_i]
     res = pmap(layer_case, items)
     for r in res:
